@@ -3,6 +3,19 @@ from gen import client_hist
 from props import c08 as common
 
 
+# Client/ClientXProofs.v `witness_nested` (theorem C09_nested_model_passes_checker), replayed on the real clients
+CFG_X = {'handlers': {'/': {'ev': 3}, '/a': {'ev': 5}}, 'ns_handlers': {},
+         'behav': {3: {'arity': None, 'outcome': ('ret', (1, 'x'))}, 5: {'arity': 1, 'outcome': ('ret', 'n')}}}
+WITNESS_NESTED = (CFG_X, [('connect', ['/', '/a'], None, False, True, False, ['0{"sid":"S0"}', '0/a,{"sid":"S1"}'], False),
+                          ('emit', 'q', None, '/a', 7),
+                          ('msg', '51-4["ev",{"_placeholder":true,"num":0}]'),
+                          ('msg_nested', b'\x01\x02', '3/a,1["ok"]'),
+                          ('msg_nested', '29["ev",1]', '2/a,3["ev",2]'),
+                          ('msg', '51-["ev",{"_placeholder":true,"num":0}]'),
+                          ('msg_nested', b'\x05', '51-/a,8["ev",{"_placeholder":true,"num":0}]'),
+                          ('msg', b'zz')], {})
+
+
 def classify(name, cfg, ops, results, code):
     i, mask = common.where(code)
     o = ops[i] if i < len(ops) else ('?',)
@@ -17,7 +30,13 @@ def key_fn(cfg, ops, results):
     prev = None
     for o, (effs, _, d) in zip(ops, results):
         cbs = d['callbacks']
-        if o[0] == 'msg':
+        if o[0] == 'msg_nested':
+            t2 = client_hist.packet_kind(o[2])[0]
+            inner = len(effs) > 1 and effs[0][0] == 'Call'
+            if inner:
+                nontrivial = True
+            pattern.append(('nested', isinstance(o[1], bytes), t2, tuple(e[0] for e in effs)))
+        elif o[0] == 'msg':
             t, ns = client_hist.packet_kind(o[1])
             if t in (3, 6):
                 hit = any(e[0] == 'CbCall' for e in effs)
@@ -46,7 +65,9 @@ def run(chk):
                 'disconnects, losses and reconnects; run on Client, AsyncClient with coroutine handlers / callbacks and AsyncClient '
                 'with plain ones; function handlers, catch-alls, class-based namespaces, return values None / scalars / lists / '
                 'dicts / tuples / bytes; non-trivial = two namespaces with an equal id outstanding, or an ACK that matches nothing; '
-                'distinct by the per-operation id / namespace pattern')
+                'distinct by the per-operation id / namespace pattern; plus the re-entrant scenario of Client/ClientX.v: while the '
+                'handler of a text or reassembled binary event runs, the next server frame (EVENT on another namespace, ACK for an '
+                'outstanding callback, second binary header) is delivered from inside the handler body')
     chk.trusted_base = list(common.TRUSTED)
     chk.assumptions = ['reconnection=False', 'events literally named connect / connect_error / disconnect are outside the domain',
                        'application callbacks return; handlers may raise (then no ACK is owed)',
@@ -57,8 +78,8 @@ def run(chk):
                           p_wait=0.9, raise_p=0.08, catchall=0.35, class_ns=0.4)
     k.w.update({'event': 6, 'binary': 2.2, 'ack': 6, 'emit': 0.6, 'emit_cb': 5, 'send': 1.0, 'call': 3, 'server_disc': 0.4,
                 'disconnect': 0.25, 'loss': 0.3, 'server_close': 0.15, 'reconnect': 0.1, 'bad_ns': 0.2, 'junk': 0.3,
-                'second_disc': 0.0})
-    hs = []
+                'second_disc': 0.0, 'nested': 3.0})
+    hs = [WITNESS_NESTED]
     for _ in range(n):
         hs.append(client_hist.gen_history(rng, k))
     for _ in range(n // 7):
